@@ -4,7 +4,7 @@
    K3 checks on compiled machines that rustc resolves exactly those (positive and negative probes). *)
 From Coq Require Import String List Bool Arith.
 From SM Require Import Ident Ast Front Spec Gir Codegen Sem Dyn Script Static.
-From SM.Lemmas Require Import FrontLemmas FrontTop GirLemmas NameLemmas Examples.
+From SM.Lemmas Require Import FrontLemmas FrontTop GirLemmas NameLemmas NoBlanket Examples.
 Import ListNotations.
 Open Scope string_scope.
 Open Scope list_scope.
@@ -46,12 +46,22 @@ Theorem C02_infallible_accessors_on_own_state_only :
   /\ forall s x a f, state_acc (codegen m feat) s = Some (x, a, f) -> x = s.
 Proof. exact state_accessors_on_own_state. Qed.
 
+(* No method reaches a state type through a superstate bound: the blanket
+   `impl<C, S: SubstateOf<G>> M<C, S>` blocks the generator can emit are never emitted for an accepted
+   definition (the graph is keyed by leaves, and a superstate is never a leaf), so the inherent methods
+   of M<.., s> are exactly those of its own impl, characterised above. *)
+Theorem C02_no_method_through_a_superstate_bound :
+  forall (d : defn) (m : machine) (items : list sitem) (ps : pstate) (feat : bool),
+  front_facts d m items ps -> gr_superimpls (codegen m feat) = [].
+Proof. intros d m items ps feat F. exact (no_blanket_impls d m items ps F). Qed.
+
 Example C02_example :
   map (fun s => map gm_target (methods_of ex_gir s "go")) ["A"; "B"; "C"; "D2"] = [["D2"]; ["D2"]; ["D2"]; ["D2"]] /\
   map (fun s => map gm_target (methods_of ex_gir s "stay")) ["A"; "B"; "C"; "D2"] = [[]; ["B"]; []; []] /\
   map (fun s => match typed_new ex_gir s 0 with Some _ => true | None => false end) ["A"; "B"; "C"; "D2"] = [true; false; false; false].
 Proof. vm_compute. repeat split. Qed.
 
+Print Assumptions C02_no_method_through_a_superstate_bound.
 Print Assumptions C02_method_exists_iff_transition_applies.
 Print Assumptions C02_methods_are_the_edges_of_the_event.
 Print Assumptions C02_new_only_on_initial_state.
